@@ -198,6 +198,9 @@ func runCheck(id, repo, verif, tier string, seed int, freeze bool, keep string, 
 	}
 	have := map[string]bool{}
 	for _, r := range results {
+		if strings.Contains(r.O.Name, "/vacuity:block-") {
+			continue
+		}
 		have[base(r.O.Name)] = true
 	}
 	if freeze {
@@ -231,6 +234,30 @@ func runCheck(id, repo, verif, tier string, seed int, freeze bool, keep string, 
 		}
 		return nil
 	}
+	// blocks that are unreachable under the model (sequential semantics make some retry paths dead):
+	// allowed up to the per-function count recorded at freeze time; more than that is a vacuity alarm
+	deadFile := filepath.Join(specDir, "expected", "dead_blocks.json")
+	deadAllowed := map[string]int{}
+	if b, err := os.ReadFile(deadFile); err == nil {
+		json.Unmarshal(b, &deadAllowed)
+	}
+	deadNow := map[string]int{}
+	for _, r := range results {
+		if r.O.Kind == "vacuity" && strings.Contains(r.O.Name, "/vacuity:block-") && r.R.Status == "unsat" {
+			deadNow[r.O.Fn]++
+		}
+	}
+	if freeze {
+		for _, k := range keys {
+			delete(deadAllowed, k)
+		}
+		for fn, n := range deadNow {
+			deadAllowed[fn] = n
+		}
+		b, _ := json.MarshalIndent(deadAllowed, "", " ")
+		os.WriteFile(deadFile, b, 0644)
+	}
+	deadSeen := map[string]int{}
 	// report
 	replayDir := filepath.Join(verif, "replays", id)
 	violations := 0
@@ -254,6 +281,13 @@ func runCheck(id, repo, verif, tier string, seed int, freeze bool, keep string, 
 		if r.ok() {
 			discharged++
 			continue
+		}
+		if r.O.Kind == "vacuity" && strings.Contains(r.O.Name, "/vacuity:block-") {
+			deadSeen[r.O.Fn]++
+			if deadSeen[r.O.Fn] <= deadAllowed[r.O.Fn] {
+				discharged++ // a block known to be dead under the sequential model
+				continue
+			}
 		}
 		if kf := isKnown(r.O.Name); kf != nil {
 			fmt.Printf("KNOWN-FINDING: property=%s %s (%s)\n", id, kf.What, r.O.Name)
